@@ -341,7 +341,7 @@ LifeClauses(S, prev, post, st) ==
     <<"bind.reopen.nowrite", S.op = "Reopen" => S.w = <<>>>>,
     <<"C11.answers", (S.op = "Reopen" /\ Has(S.q, "ans") /\ Has(prev.q, "ans")) => S.q.ans = prev.q.ans>>,
     <<"C11.clear",  (S.op \in {"Clear", "Recreate"} /\ Has(S.q, "fresh")) =>
-                       (S.q.fresh.rawsame /\ S.q.fresh.obssame /\ S.q.fresh.anssame)>>
+                       (S.q.fresh.rawsame /\ S.q.fresh.obssame /\ S.q.fresh.anssame /\ S.q.fresh.potsame)>>
   >>)
 
 (***************************************************************************)
